@@ -894,7 +894,7 @@ class HistState:
         self.owned_ever = []   # every (target, root, command kind) agentpack ever wrote under
         self.events = []       # (ordinal or None, kind)
 
-def run_hist_stream(ctx, nhist, depth, props, weights, stream='full_hist', tamper=False, kinds_seq=None, simple=False):
+def run_hist_stream(ctx, nhist, depth, props, weights, stream='full_hist', tamper=False, kinds_seq=None, simple=False, setup=None):
     rng = ctx.rng
     cases = []
     kinds = [k for k, wgt in weights.items() for _ in range(wgt)]
@@ -904,6 +904,7 @@ def run_hist_stream(ctx, nhist, depth, props, weights, stream='full_hist', tampe
             cw = CfgWorld(sb, rng)
             if not cw.opts['write_user_skills'] and rng.random() < 0.7:
                 cw.opts['write_user_skills'] = True
+            if setup: setup(cw, rng)
             cw.write()
             ids = Ids(); base = sb.root
             for _ in range(rng.randrange(0, 2)):
